@@ -222,7 +222,12 @@ func c15RunHistory(name string, script []string, faultAt int, cancelAt ...int) (
 	defer rec.Stop()
 	store := bs.NewFileSystemDataStore(dir)
 	n := 0
-	store.VerifSetFileNameDraw(func() string { n++; return fmt.Sprintf("file%02d", n) })
+	// file1, file10, file100, file2, file20, ...: every name is a proper prefix of the next two,
+	// so an operation on one file that touches "everything starting with its name" hits others
+	store.VerifSetFileNameDraw(func() string {
+		n++
+		return fmt.Sprintf("file%d%s", 1+(n-1)/3, strings.Repeat("0", (n-1)%3))
+	})
 	eng, err := bs.NewBloomSearchEngine(c15Cfg(), store, store)
 	if err != nil {
 		return nil, err
